@@ -992,12 +992,10 @@ impl Debug for ScmpTracerouteReplyMessageView {
 pub struct ScmpUnknownMessageView([u8]);
 gen_view_impl!(ScmpUnknownMessageView, ScmpUnknownMessageLayout);
 impl ScmpUnknownMessageView {
-    gen_field_read_and_write!(
-        message_type,
-        set_message_type,
-        ScmpUnknownMessageLayout::TYPE_RNG,
-        u8
-    );
+    gen_field_read!(message_type, ScmpUnknownMessageLayout::TYPE_RNG, u8);
+    // The message type decides how many bytes the typed message views read, so changing it is
+    // unsafe like on every other SCMP message view.
+    gen_unsafe_field_write!(set_message_type, ScmpUnknownMessageLayout::TYPE_RNG, u8);
 
     gen_field_read_and_write!(code, set_code, ScmpUnknownMessageLayout::CODE_RNG, u8);
 
